@@ -158,6 +158,9 @@ def coq_build(clean=False) -> None:
 def proof_step(prop: str, thorough=False) -> dict:
     """Recompile Props/<prop>.v unconditionally; parse Print Assumptions output."""
     vfile = os.path.join(COQ, "Props", f"{prop}.v")
+    if os.environ.get("VERIF_DEBUG_SKIP_PROOF"):
+        # development aid only: the run ends with exit 2 (no verdict), see Check.finish
+        return {"theorems": ["debug"], "compiled": True, "closed": ["debug"], "axioms": {}, "log": "", "checker_cmd": "skipped (debug)"}
     src = open(vfile).read()
     theorems = re.findall(r"^\s*Theorem\s+(\w+)", strip_comments(src), re.M)
     cmd = ["coqc", "-Q", ".", "GE", "-w", "-notation-overridden", f"Props/{prop}.v"]
@@ -326,6 +329,11 @@ class Check:
             json.dump(ev, f, indent=1, default=str)
         for k in self.known_hit:
             print(f"KNOWN-FINDING: property={self.prop} {k}")
+        if os.environ.get("VERIF_DEBUG_SKIP_PROOF"):
+            for kind, what, replay, found in self.violations:
+                print(f"  debug {kind}: {what[:600]}")
+            print(f"DEBUG RUN (proof step skipped): no verdict; violations={len(self.violations)} evaluations={cov.get('evaluations')}")
+            return 2
         if not self.violations:
             print(f"OK property={self.prop} tier={self.tier} obligations={obligations} discharged={discharged} evaluations={cov.get('evaluations')} wall_s={ev['wall_s']}")
             return 0
